@@ -17,6 +17,9 @@ from .. import crashfs, savefx
 from ..core import Run, Stats, fanout
 
 PREV = {0: [], 1: [("first", "neg2x3")], 3: [("first", "neg2x3"), ("second run/ü", "tensor"), ("third", "big3k")]}
+# long histories: a threshold on the number of runs already in the file (backups, rotation, compaction) only shows up there
+PREV[12] = [(f"run-{i:02d}", "neg2x3" if i % 3 else "tensor") for i in range(12)]
+PREV[33] = [(f"run-{i:02d}", "neg2x3") for i in range(33)]
 
 
 def build_old(root: str, n_prev: int) -> None:
@@ -247,12 +250,16 @@ def run(run: Run) -> None:
                 shards = 6 if (part in ("tear", "interrupt") and new_kind != "neg2x3") else 2 if part in ("tear", "interrupt") else 1
                 for k in range(shards):
                     us.append((n_prev, new_kind, part, 250 if quick else 3000, (k, shards)))
-    run.rule = ("file histories with 0 / 1 / 3 earlier runs x new result of ~200 B / ~3 KiB / ~40 KiB x { kill before EVERY OS-level operation (and after the "
+    for n_prev in (12,) if quick else (12, 33):
+        for new_kind in ("neg2x3", "big3k"):
+            for part in ("kill", "fail", "fail+kill") + (("tear",) if new_kind == "neg2x3" else ()):
+                us.append((n_prev, new_kind, part, 250 if quick else 3000, (0, 1)))
+    run.rule = ("file histories with 0 / 1 / 3 / 12 (33) earlier runs x new result of ~200 B / ~3 KiB / ~40 KiB x { kill before EVERY OS-level operation (and after the "
                 "last), EVERY byte offset of every write torn (payloads <= 2 KiB; first/last 64 and every 97th offset above), ENOSPC and EIO injected at EVERY "
                 "operation, fault sequences (an injected ENOSPC the program survives, then death before any later operation), KeyboardInterrupt at every traced Python line of the save } each followed by a fault-free recovery save; oracle: data.json is "
                 "byte-identical to the old file or to the complete new file, parses, keeps every earlier run. states = distinct directory contents "
                 "observed; non-trivial = faults after which the directory differs from the old one")
-    run.bounds = {"earlier_runs": [0, 1, 3], "result_sizes": ["~200B", "~3KiB", "~40KiB"], "units": len(us)}
+    run.bounds = {"earlier_runs": [0, 1, 3, 12] if quick else [0, 1, 3, 12, 33], "result_sizes": ["~200B", "~3KiB", "~40KiB"], "units": len(us)}
     run.assumptions = ["process death and Python-level interruption, not power loss: no fsync is demanded, unsynced pages are not modelled",
                        "every kill(i) is cross-checked against a forked child that really os._exit()s at operation i (traces_validated_against_impl)"]
     run.add(fanout(unit, sorted(us, key=lambda u: -({"big40k": 40, "big3k": 3}.get(u[1], 1) * {"tear": 5, "interrupt": 5}.get(u[2], 1))), chunk=1))
